@@ -2,5 +2,6 @@
 import LA.Model.Util
 import LA.Props.C01
 import LA.Props.C05
+import LA.Props.C06
 import LA.Props.C08
 import LA.Props.C17
